@@ -346,3 +346,64 @@ func init() {
 		},
 	})
 }
+
+func init() {
+	register(&Property{
+		ID: "C21",
+		Explanation: "Decides, for the shipped typed ASTs (js, tm; parsers/test/ast is a stale directory that test.tm no longer generates), that no accessor's type assertion can fail and the node factory is total: EXHAUST: the factory switch has a case for every NodeType constant. IMPL: for every accessor, every node type admitted by the last selector of its navigation chain (categories expanded through the generated category lists) and NilNode implement the asserted interface (go/types.Implements), and struct wrappers T{child} are used only with single-type selectors equal to T. " +
+			"TMPL(step-scope): the template emits each chain step's selector name from the step itself. Not decided: other grammars (type inference in syntax/types.go is algorithmic), 'every child is reachable through an accessor'.",
+		Rules: []string{"EXHAUST", "IMPL", "TMPL(step-scope)"},
+		Run: func(c *Ctx) {
+			ruleTYPEDAST(c)
+			ruleTMPLSTEPSCOPE(c)
+		},
+	})
+}
+
+func init() {
+	register(&Property{
+		ID: "C30",
+		Explanation: "Decides structural necessary conditions of 'the Bison export describes the grammar the tables were built from' on the template tree of bison.go.tmpl and its Go helpers: CONSTAGREE(bison-kind): integer literals compared with .Kind equal syntax.Lookahead, and a bare %empty is printed only under that test (every other rule goes through ExprString, which keeps %prec). " +
+			"LOCKSTEP(bison-export): rules come from .Parser.RulesByNonterm and precedences from .Parser.Prec, the very slice assigned to lalr.Grammar.Precedence; left-hand sides are printed as the nonterminal's own name and references by the symbol's own text (no name rewriting that could merge symbols). " +
+			"Not decided: ExprString vs rule.RHS for mid-rule actions (a suspected mismatch, un-triaged).",
+		Rules: []string{"CONSTAGREE(bison-kind)", "LOCKSTEP(bison-export)"},
+		Run:   func(c *Ctx) { ruleBISON(c) },
+	})
+}
+
+func init() {
+	register(&Property{
+		ID: "C28",
+		Explanation: "Decides structural necessary conditions of 'symbol names map to valid, distinct identifiers': REGISTER: every site in package compiler that creates a grammar.Symbol with an identifier looks it up in resolver.ids, raises the 'get the same ID' error under exactly the outcome 'already taken' (no further condition), and registers the same identifier (audited exception: mid-rule nonterminals). " +
+			"GUARD(leading-digit): ident.Produce inserts the underscore for a leading digit based on what has been written so far (buf.Len() == 0 inside the rune loop). Not decided: non-emptiness and validity of Produce's output in general (string computation).",
+		Rules: []string{"REGISTER", "GUARD(leading-digit)"},
+		Run:   func(c *Ctx) { ruleREGISTER(c); ruleLEADINGDIGIT(c) },
+	})
+}
+
+func init() {
+	register(&Property{
+		ID: "C13",
+		Explanation: "Decides one structural necessary condition of 'desugaring preserves the language': DTX(expr-equal): Expand reuses an already extracted nonterminal for a sub-expression (lists, optionals, nested choices) when names match and (*Expr).Equal says the expressions are the same; the check evaluates Equal abstractly for every expression kind and requires that a difference in any component of the kind (symbol, arguments, every sub-expression including a list's separator, list flags, names, arrow flags, predicate, set index) makes it false and identical components make it true. " +
+			"LOOPSHAPE(marker-transparent): markers never hide symbols of a rule. Not decided: the expansion rules themselves (which productions a list/optional/choice turns into) — language equivalence of those is algorithmic and out of reach for this technique; two of the four independently seeded C13/C14 regressions are of that kind and are not detected (recorded in DESIGN.md).",
+		Rules: []string{"DTX(expr-equal)", "LOOPSHAPE(marker-transparent)"},
+		Run: func(c *Ctx) {
+			ruleEXPREQUAL(c)
+			ruleMARKERLOOPS(c)
+			ruleMARKERLOOPSAST(c)
+		},
+	})
+	register(&Property{
+		ID: "C14",
+		Explanation: "Decides structural necessary conditions of 'template instantiation preserves meaning': DTX(predicate): the predicate evaluator of conditional alternatives computes or / and / not / equals (all truth assignments of two operands, bound value equal or not). ESCAPE: the per-nonterminal required-flag sets of PropagateLookaheads are not kept in a recycled buffer (a lost 'flag is never provided' diagnostic ends in a process exit). CYCLE/SHARED: instantiating and renumbering token-set expressions terminates on cyclic sets and touches shared nodes once. DTX(expr-equal) as in C13. " +
+			"Not decided: argument propagation and the instantiation work-list themselves.",
+		Rules: []string{"DTX(predicate)", "ESCAPE", "CYCLE", "SHARED", "DTX(expr-equal)"},
+		Run: func(c *Ctx) {
+			rulePREDICATE(c)
+			ruleESCAPE(c, map[string]bool{"syntax": true})
+			ruleCYCLE(c)
+			ruleSHARED(c)
+			ruleEXPREQUAL(c)
+		},
+	})
+}
